@@ -55,7 +55,12 @@ def store(ex, target, val, node, in_place=True):
         ex.safe(is_int(idx), 'TypeError', 'index', node)
         kind = static_kind(bv)
         if kind not in ('VList', 'VTuple'):
-            if ex.branch(is_list(bv)):
+            kk = ex.known_kind(bv)
+            if kk == 'VList':
+                kind, seq = 'VList', vl.simp(get_elems(bv))
+            elif kk == 'VTuple':
+                kind, seq = 'VTuple', vl.simp(get_items(bv))
+            elif ex.branch(is_list(bv)):
                 kind, seq = 'VList', get_elems(bv)
             else:
                 ex.safe(is_tuple(bv), 'TypeError', 'item store', node)
@@ -63,10 +68,16 @@ def store(ex, target, val, node, in_place=True):
         else:
             seq = bv.arg(0)
         n = z3.Length(seq)
-        i = get_i(idx)
-        j = vl.simp(z3.If(i < 0, i + n, i))
+        i = vl.simp(get_i(idx))
+        j = i if ex.is_nonneg(i) else vl.simp(z3.If(i < 0, i + n, i))
         ex.safe(z3.And(j >= 0, j < n), 'IndexError', 'item store in range', node)
-        new = z3.Concat(z3.SubSeq(seq, 0, j), z3.Unit(as_val(val)), z3.SubSeq(seq, j + 1, n - j - 1))
+        kn = ex.known_len(seq)
+        if kn is not None and z3.is_int_value(j) and 0 <= j.as_long() < kn <= 8:
+            # a sequence of known length: the elements are spelled out
+            parts = [z3.Unit(as_val(val)) if q == j.as_long() else z3.Unit(seq[q]) for q in range(kn)]
+            new = parts[0] if len(parts) == 1 else z3.Concat(*parts)
+        else:
+            new = z3.Concat(z3.SubSeq(seq, 0, j), z3.Unit(as_val(val)), z3.SubSeq(seq, j + 1, n - j - 1))
         store(ex, target.value, V(VList(new) if kind == 'VList' else VTuple(new)), node)
         return
     raise Unsupported('store target %s' % type(target).__name__)
@@ -147,7 +158,10 @@ def list_method(ex, recv_expr, v, name, e):
         i = get_i(idx)
         n = z3.Length(seq)
         j = vl.simp(z3.If(i < 0, z3.If(i + n < 0, 0, i + n), z3.If(i > n, n, i)))
-        new = z3.Concat(z3.SubSeq(seq, 0, j), z3.Unit(as_val(args[1])), z3.SubSeq(seq, j, n - j))
+        if z3.is_int_value(vl.simp(i)) and vl.simp(i).as_long() == 0:
+            new = z3.Concat(z3.Unit(as_val(args[1])), seq)        # insert(0, x): x in front
+        else:
+            new = z3.Concat(z3.SubSeq(seq, 0, j), z3.Unit(as_val(args[1])), z3.SubSeq(seq, j, n - j))
         res = V(VNone)
     elif name == 'pop':
         n = z3.Length(seq)
